@@ -263,7 +263,7 @@ func crashKeyGeneric(caseDesc, output string) (string, string) {
 }
 
 func init() {
-	full := GenOpts{MaxN: 6, Retries: true, Preconds: true, ContinueOn: true, Failures: true, MaxActive: true, Delay: true, Outputs: true, SharedPrec: true, TeardownFail: true, RetryMsProb: 5}
+	full := GenOpts{MaxN: 6, Retries: true, Preconds: true, ContinueOn: true, Failures: true, MaxActive: true, Delay: true, Outputs: true, SharedPrec: true, TeardownFail: true, SubWorkflow: true, RetryMsProb: 5}
 	c01 := &dagFamily{prop: "C01", gen: full, nontrivial: func(spec *vexec.CaseSpec, out *vexec.Outcome, obl int64) bool {
 		ex := out.Executions()
 		for _, s := range spec.Steps {
@@ -304,7 +304,7 @@ func init() {
 		Rule:        "Same generator as C01 with retry limits 0..2 and scripts failing the first k attempts with k below, at and above the limit, plus fail-always; every maxActiveRuns. Oracle: executions counted by the scripted executor == min(k,limit)+1 for runnable steps and 0 otherwise; Node.State().RetryCount == executions-1; an attempt number above limit+1 is flagged the moment Run() is entered; two Run() calls of one step open at once are flagged. Dry-run part: generated DAGs go through the real agent with Dry=true over a real jsondb directory; any executor event or any file in the data directory afterwards is a violation. Non-trivial = a step was retried or was not runnable. Distinct as in C01.",
 		Assumptions: []string{"dry-run cases are executed through Agent.Run in-process; the CLI's `dry` command wiring is covered by the pinned suite only"}})
 
-	c15gen := GenOpts{MaxN: 6, Retries: true, Failures: true, MaxActive: true, RetryMsProb: 25}
+	c15gen := GenOpts{MaxN: 6, Retries: true, Failures: true, MaxActive: true, SubWorkflow: true, RetryMsProb: 25}
 	c15 := &dagFamily{prop: "C15", gen: c15gen, nontrivial: func(spec *vexec.CaseSpec, out *vexec.Outcome, obl int64) bool {
 		return spec.MaxActiveRuns > 0 && out.MaxOpen >= spec.MaxActiveRuns && len(spec.Steps) > spec.MaxActiveRuns
 	}}
